@@ -247,12 +247,45 @@ func (fr *frame) callStatic(fn *ssa.Function, args []Val, argTypes []types.Type,
 		vc.havocAllState(st)
 	} else {
 		vc.havocked[name] = true
+		if why := panickyExternal(fn); why != "" {
+			// no contract says when this callee panics, and its package panics by design on bad operands
+			vc.safetyCheck(fmt.Sprintf("%s#safety:external-without-panic-contract(%s)", shortFn(fr.fn), name), pos,
+				"call to "+name+" ("+why+") has no contract stating when it panics", alive, "false", st)
+		}
 	}
 	hv := fr.havocCall(fn.Signature, args, argTypes, st, alive, name)
 	if !vc.eng.mayReturnSentinel(fn) {
 		vc.assumeNotSentinel(hv, fn.Signature, alive)
 	}
 	return hv, alive
+}
+
+// panickyExternal says why a function of another module may not be assumed total when it has no contract:
+// the SDK's number and coin types (and math/big under them) panic on nil receivers, overflow, out-of-range
+// conversions, invalid or mismatched denominations; Must* functions panic on any error by convention.
+func panickyExternal(fn *ssa.Function) string {
+	if strings.HasPrefix(fn.Name(), "Must") {
+		return "Must* functions panic on error"
+	}
+	path := ""
+	if fn.Pkg != nil {
+		path = fn.Pkg.Pkg.Path()
+	} else if recv := fn.Signature.Recv(); recv != nil {
+		t := recv.Type()
+		if p, ok := t.(*types.Pointer); ok {
+			t = p.Elem()
+		}
+		if n, ok := types.Unalias(t).(*types.Named); ok && n.Obj().Pkg() != nil {
+			path = n.Obj().Pkg().Path()
+		}
+	} else if o := fn.Origin(); o != nil && o.Pkg != nil {
+		path = o.Pkg.Pkg.Path()
+	}
+	switch path {
+	case "cosmossdk.io/math", "github.com/cosmos/cosmos-sdk/types", "math/big":
+		return "package " + path + " panics on nil, overflow or invalid operands"
+	}
+	return ""
 }
 
 func tupleOf(res []Val, n int) Val {
